@@ -145,6 +145,25 @@ func ruleC14(w *World, r *Report) {
 			}
 		})
 		r.check(overwrite == nil, "R14.1", uname, tag+" precedes the overwrite of the stored FAR", pos, "no store into s.fars[] reaches the call", "the stored FAR is overwritten before the end marker is built from it")
+		// (⇒) once the id matches and the flag is set, the call happens: no further condition may suppress it
+		for _, b := range upd.Blocks {
+			for _, sc := range b.Succs {
+				v, truth, ok := boolEdge(b, sc)
+				if !ok || !truth || symOf(v).String() != "far.sendEndMarker" {
+					continue
+				}
+				// from the flag's true edge every path to an exit executes the call
+				if len(sc.Instrs) == 0 {
+					continue
+				}
+				var first ssa.Instruction = sc.Instrs[0]
+				skipped := isAEM(first) == false && reach(upd, first, isReturn, isAEM, nil) != nil
+				if isAEM(first) {
+					skipped = false
+				}
+				r.check(!skipped, "R14.1", uname, tag+" follows from flag ∧ id match alone", pos, "every path from the flag's true edge reaches the call", "with the flag set and the id matching, a further condition can still suppress the end marker")
+			}
+		}
 		// at most one per path
 		again := reach(upd, instr, isAEM, nil, nil)
 		r.check(again == nil, "R14.1", uname, tag+" at most once per path", pos, "no second call reachable", "a second end marker can be created on the same path")
@@ -345,6 +364,15 @@ func ruleC14(w *World, r *Report) {
 			r.check(s == x.expect, "R14.5", aname, x.typ+"."+x.field+" ← "+x.expect, w.Pos(st.Pos()), s, x.typ+"."+x.field+" is "+s+", want "+x.expect)
 		}
 	}
+	// the appended bytes come from a serialize buffer created in this call (not a shared / pooled one)
+	allInstrs(aem, func(i ssa.Instruction) {
+		c, ok := i.(*ssa.Call)
+		if !ok || !c.Call.IsInvoke() || c.Call.Method.Name() != "Bytes" {
+			return
+		}
+		s := symOf(c.Call.Value).String()
+		r.check(strings.Contains(s, "gopacket.NewSerializeBuffer") && !strings.Contains(s, "φ"), "R14.5", aname, "packet bytes come from a buffer created by this call", w.Pos(c.Pos()), s, "end-marker bytes are taken from "+s+" (a shared or reused buffer aliases packets already queued)")
+	})
 	// the serialised packet is appended exactly once per call on the success path
 	{
 		n := 0
